@@ -3,6 +3,7 @@ TLC generates texts from the stream alphabets (Gen_Streams) -> harness `text` ru
 annotator, scanner, validator and rewriter on them at every threshold -> TLC evaluates the property
 predicate of Props.tla on every observation (Val_Streams)."""
 import json
+import os
 import vlib
 
 THRS_POLICY = ["0", "-inf", "-1", "0.5", "1", "5", "5.5", "10", "13", "100", "inf", "nan"]
@@ -65,6 +66,20 @@ def exec_validate(ctx, prop, req, module="Val_Streams", mode="text", min_lines=1
         ctx.failures.append(dict(verdict=f["verdict"], cls="%s/%s" % (f["verdict"], q.get("lang")), sig=sig,
                                  request=q))
     return res, obs, h
+
+
+def vocab_pairs(ctx, prop, want, thrs=("0",), drift=True):
+    """texts over the FULL vocabulary of each interpreter model: every word, every ordered pair of words (quick: all pairs too,
+    the vocabularies have 83..201 entries), seeded 3/4-word texts -- Gen_VocabTexts; judged by the verdict of `prop`"""
+    from checks import spell
+    q = ctx.quick()
+    prm = dict(allpairs=True, pairs=0, randn=1500 if q else 40000, seed=ctx.seed % 100000, thrs=list(thrs), want=want)
+    req = spell.generate(ctx, "Gen_VocabTexts", prm)
+    os.rename(req, ctx.path("req_vocab.ndjson"))
+    res, obs, h = exec_validate(ctx, prop, ctx.path("req_vocab.ndjson"), module="Val_Streams", mode="text", min_lines=3000, drift=drift)
+    ctx.extra["vocabulary_pair_texts"] = h["records"]
+    os.rename(obs, ctx.path("obs_vocab.ndjson"))
+    return res
 
 
 def account(ctx, obs, rule, nontrivial):
